@@ -37,10 +37,10 @@ CLAIMS = {
         "design_ref": "DESIGN.md section 4 C16",
     },
     "C17": {
-        "engine": "V+K",
+        "engine": "V+K+F",
         "technique": "Verus proof of the real functions::range (exact progression, overflow freedom, cap); Verus contracts on twelve real string/map filters against a character-sequence model of str in which byte offsets are meaningful only on character boundaries (slicing and split_at carry that precondition); Kani full-domain harnesses on numeric tests, conversions, abs/int/round/default and typed argument extraction",
         "text": "Proof, unbounded: range() returns Err for step 0 and for start > end with positive step, otherwise exactly the arithmetic progression start + i*step strictly on the near side of end, at most 100000 elements, with start + i*step_by never overflowing. String filters, for all texts and all keyword arguments: capitalize = first CHARACTER upper-cased + rest lower-cased; truncate keeps exactly the first `length` characters plus the end marker (default the ellipsis) and returns a text of at most `length` characters unchanged, its slice offset proved to be a character boundary; trim/trim_start/trim_end use the pattern forms iff `pat` is given, on the right ends; replace(from, to) in that order; pluralize: singular suffix iff the integer is 1 or -1, error for non-integers, documented defaults; upper/lower; escape_xml = character-wise the five XML entities, output free of < > \" '; title = the documented word-wise fold (apostrophe does not start a word); get = entry, else default, else error; length = Value::len or error. A missing or mistyped keyword argument surfaces as the extraction error.",
-        "note": "Kwargs::get/must_get are trusted declarations with uninterpreted results (typed extraction itself: engine K group builtins_args); str::trim*/replace/to_uppercase/to_lowercase/char_indices/chars and String::push* are std contracts over the character sequence (ASSUMED, named per site); indent, newlines_to_br, wordcount, join, split, reverse, group_by, date filters and the registration table of built-ins are not decided; i128::checked_neg assumed.",
+        "note": "Kwargs::get/must_get are trusted declarations with uninterpreted results (typed extraction itself: engine K group builtins_args); str::trim*/replace/to_uppercase/to_lowercase/char_indices/chars and String::push* are std contracts over the character sequence (ASSUMED, named per site); indent, newlines_to_br, wordcount, join, split, reverse, group_by, date filters are not decided; the registration table of built-ins is an audited inventory (engine F), not a proof; i128::checked_neg assumed.",
         "design_ref": "DESIGN.md section 4 C17",
     },
     "C01": {
